@@ -5,6 +5,8 @@ import (
 	"bytes"
 	"compress/gzip"
 	"fmt"
+	"os"
+	"runtime/pprof"
 	"sort"
 	"strconv"
 	"strings"
@@ -73,34 +75,18 @@ func arBases() []base {
 	}
 }
 
-// debWideSet restricts the wide product on the (4 KiB, deb.Load-executed) .deb bases: every single corruption, and
-// the pairs name x name and name x size (left-aligned size classes) over all member pairs (deb-pre, which exists for
-// the empty earlier member: name x name only); the small bases ar2/ar3 take the full product.
-func debWideSet(coreSize []map[string]bool, nameOnlyPairs bool, cs []corr) bool {
+// debWideSet restricts the wide product on the 4 KiB .deb bases, whose sets also go through deb.Load (expensive on
+// the instrumented build): deb-stored takes every single corruption and name x name over all member pairs (both
+// orders of a table name and a reference name); deb-pre, which exists for its EMPTY first member, takes the name
+// singles and name x name pairs that involve that member. The small bases ar2/ar3 take the full product.
+func debWideSet(pre bool, cs []corr) bool {
 	if len(cs) == 1 {
-		return true
+		return !pre || cs[0].Col == "name"
 	}
-	if len(cs) != 2 {
+	if len(cs) != 2 || cs[0].Col != "name" || cs[1].Col != "name" {
 		return false
 	}
-	core := func(c corr) bool {
-		return c.Col == "name" || (c.Col == "size" && coreSize[c.M][c.Val])
-	}
-	if nameOnlyPairs {
-		return cs[0].Col == "name" && cs[1].Col == "name"
-	}
-	return (cs[0].Col == "name" || cs[1].Col == "name") && core(cs[0]) && core(cs[1])
-}
-
-func coreSizes(b base) []map[string]bool {
-	out := make([]map[string]bool, len(b.ms))
-	for i, m := range b.ms {
-		out[i] = map[string]bool{}
-		for _, v := range colValues("size", len(m.Data), false) {
-			out[i][v] = true
-		}
-	}
-	return out
+	return !pre || cs[0].M == 0 || cs[1].M == 0
 }
 
 // debPre is deb-stored with an EMPTY member in front (an earlier member without data, e.g. for an empty name table).
@@ -411,7 +397,9 @@ func (x *runner) one(scen string, st *mc.Stats, lim limiter, b []byte, via, desc
 	anomaly, _ := refWalk(b)
 	var clauses0 map[string]bool
 	for conv := 0; conv < 2; conv++ {
+		slot := journalBegin(st, b, conv, via)
 		fs, class := eval(b, conv, via)
+		journalEnd(slot)
 		st.Evals += 2 // every input is run twice (determinism clause); a hang is run once
 		st.Traces++
 		key := via + strconv.Itoa(conv) + string(b)
@@ -492,6 +480,15 @@ func rearrangements(ms []gen.ArmMember) (out [][]gen.ArmMember, descs []string) 
 }
 
 func Run(r *mc.Run) {
+	if supervise(r) {
+		return
+	}
+	if p := os.Getenv("VERIF_C15_PROF"); p != "" { // developer aid: CPU profile of the enumeration
+		if f, err := os.Create(p); err == nil {
+			pprof.StartCPUProfile(f)
+			defer pprof.StopCPUProfile()
+		}
+	}
 	r.Rule = "inputs are enumerated, never sampled: per base archive every set of <= k corrupted header columns (one value per decision class per column), every truncation point, every duplication / removal / permutation of members, every string of length <= 3 over {! ` \\n 0 blank} at five placements, every listed debian-binary content; each input is run under both ReaderAt conventions and (for .deb bases) through deb.Load as well, each twice; states = distinct (bytes, convention, entry point); non-trivial = the library-independent reference walk finds an anomaly in the bytes (histogram 'input: ...')"
 	r.Extra["map_orders"] = MapOrderNote
 	r.Assume = []string{
@@ -616,7 +613,6 @@ func Run(r *mc.Run) {
 	for _, b := range []base{arB[0], arB[1], debB[0], debPre()} {
 		b := b
 		all := singlesOf(b.ms, true)
-		cs0 := coreSizes(b)
 		kb := kw
 		if !b.deb && !r.Quick() {
 			kb = 3
@@ -626,13 +622,13 @@ func Run(r *mc.Run) {
 			via = "ar + deb.Load"
 		}
 		r.Scenario("wide-columns-"+b.name, map[string]interface{}{"base": b.name, "members": len(b.ms), "columns": wideCols, "single_corruptions": len(all),
-			"max_columns_corrupted": kb, "via": via, "readerat_conventions": 2, "deb_bases_pairs": "deb-stored: name x name and name x left-aligned size; deb-pre: name x name",
+			"max_columns_corrupted": kb, "via": via, "readerat_conventions": 2, "deb_bases_sets": "deb-stored: every single + name x name over all member pairs; deb-pre: name singles + name x name with the empty first member",
 			"name_values": colValues("name", 0, true), "mode_values": colValues("mode", 0, true), "uid_values": colValues("uid", 0, true)},
 			len(all), func(shard int, st *mc.Stats) bool {
 				lim := limiter{}
 				complete := true
 				supersets(all, shard, kb, func(cs []corr) bool {
-					if b.deb && !debWideSet(cs0, b.name == "deb-pre", cs) {
+					if b.deb && !debWideSet(b.name == "deb-pre", cs) {
 						return true
 					}
 					bs := gen.ArmBuild(apply(b.ms, cs))
